@@ -231,6 +231,47 @@ def t_number_then_identifier(text, res):
 _LEFT_SPINE = ('left', 'node', 'identifier', 'predicate', 'value', 'expr')
 
 
+def t_function_expression_name_used_outside(text, res):
+    """a named function expression whose name also occurs, as a variable
+    reference or declaration, outside that function expression"""
+    if res is None:
+        return False
+    from vk.ref import refscope
+    occ = None
+    for n in _walk_ref(res.tree):
+        if n.kind == 'FuncExpr' and n.attrs.get('identifier') is not None:
+            if occ is None:
+                occ = [o for o in refscope.resolve(res).occ if o.role in ('ref', 'decl')]
+            name = n.attrs['identifier'].attrs['value']
+            for o in occ:
+                if o.name == name and not (n.first <= o.tok <= n.last):
+                    return True
+    return False
+
+
+def t_catch_parameter_redeclared(text, res):
+    """a var or function declaration inside a catch block (not inside a nested
+    function) with the name of the catch parameter"""
+    if res is None:
+        return False
+
+    def declares(node, name):
+        if isinstance(node, list):
+            return any(declares(x, name) for x in node)
+        if not isinstance(node, refjs.R):
+            return False
+        if node.kind in ('VarDecl', 'VarDeclNoIn', 'FuncDecl'):
+            if node.attrs['identifier'].attrs['value'] == name:
+                return True
+        if node.kind in ('FuncDecl', 'FuncExpr', 'GetPropAssign', 'SetPropAssign'):
+            return False
+        return any(declares(v, name) for v in node.attrs.values())
+    for n in _walk_ref(res.tree):
+        if n.kind == 'Catch' and declares(n.attrs['elements'], n.attrs['identifier'].attrs['value']):
+            return True
+    return False
+
+
 def tt_comment_after_restricted_keyword(tree):
     """tree-level form: the operand of a return / throw / break / continue has
     a comment somewhere on its leftmost spine, i.e. the printer emits that
